@@ -11,7 +11,12 @@ replayed against exactly what was checked.  This module must not import crosshai
 """
 import functools
 import inspect
+import os
 import re
+
+# the tree under test: /repo, unless VERIF_REPO names a scratch copy (used only to try seeded changes
+# in their own worktree while developing; the registered commands always run against /repo)
+REPO = os.environ.get('VERIF_REPO', '/repo').rstrip('/')
 
 PARAMS = {}
 TWIN = False          # reachability twin (worker.py replaces the post-condition by False)
@@ -116,7 +121,7 @@ def run_concrete(fn, args):
             return 'HOLDS', 'admitted exception %s' % type(e).__name__
         import traceback
         frames = traceback.extract_tb(e.__traceback__)
-        if not any(f.filename.startswith('/repo/') for f in frames):
+        if not any(f.filename.startswith(REPO + '/') for f in frames):
             # the exception never passed through the code under test: a bug of the harness itself
             return 'HARNESS', 'lemma code raised %s: %s\n%s' % (type(e).__name__, e, traceback.format_exc(limit=6))
         return 'FAILS', 'raised %s: %s\n%s' % (type(e).__name__, e, traceback.format_exc(limit=6))
